@@ -389,13 +389,15 @@ def map_history(chk, program):
     P, ID = ordinary[0].pgn, ordinary[0].id
     CP, CID = consts['ISO_CLAIM_PGN'], consts['ISO_CLAIM_PGN_ID']
     fn2 = program.fn('decoder', f"{CLS}._call_decode_function")
+    fast_ok = []
+    map_history.fast_decided = False
     try:
         for excl, tag in (([], ''), ([CP], '/claim-filtered')):
             attrs = F.runtime_attrs(program, sf, cf, consts, excl, [])
             dp = F.DecodePath(program, attrs, consts)
             rep = []
-            def step(name, pgn, mid, src, nm, want_ret, check):
-                r = dp.feed(pgn, mid, src=src, name_int=nm)
+            def step(name, pgn, mid, src, nm, want_ret, check, fast=False):
+                r = dp.feed(pgn, mid, src=src, name_int=nm, fast=fast)
                 problems = check(r)
                 ad = r.get('add_data')
                 if r['status'] == 'returned' and ad is not None:
@@ -431,26 +433,47 @@ def map_history(chk, program):
                       ([] if excl or r['attached_raw'] is m().get(7) else ['the identity attached is not the replacement']))
             e7b = m().get(7)
             step('ordinary-from-7-after-replacement', P, ID, 7, 5, True, lambda r: [] if r['attached_raw'] is e7b else ['the identity attached is not the latest claim of source 7'])
+            # the same through the fast-packet path: a message complete in its first frame, from 7 (claimed) and from 13 (never claimed)
+            nrep = len(rep)
+            try:
+                step('fast-from-7', P, ID, 7, 5, True, lambda r: [] if r['attached_raw'] is e7b and m().get(7) is e7b else ['the identity attached to a reassembled message is not the entry stored for its source'], fast=True)
+                step('fast-from-13-unclaimed', P, ID, 13, 5, True, lambda r: ([] if r['attached_raw'] in (None, '<none>') else ['an identity is attached to a reassembled message of a source that never claimed']) +
+                     ([] if 13 not in m() and m().get(7) is e7b else ['the map changed on an ordinary message']), fast=True)
+                # a two-frame message from 7 with a claim of 7 (another NAME) between its frames: the completed message carries the latest claim
+                step('fast-first-frame-from-7', P, ID, 7, 5, False, lambda r: [] if m().get(7) is e7b else ['the map changed on a frame of an ordinary message'], fast=(0x20, 10, 1, 2, 3, 4, 5, 6))
+                step('claim-from-7-between-the-frames', CP, CID, 7, 4242, True, lambda r: [] if is_new_from(r, 4242) and m().get(7) is not e7b else ['a claim with another NAME does not replace the stored identity'])
+                e7c = m().get(7)
+                step('fast-last-frame-from-7', P, ID, 7, 5, True, lambda r: [] if r['attached_raw'] is e7c else ['the identity attached to the reassembled message is not the latest claim of its source (it is the one known when an earlier frame arrived)'],
+                     fast=(0x21, 7, 8, 9, 10, 0xff, 0xff, 0xff))
+                fast_ok.append(True)
+            except (A.Unknown, A.RaiseSignal, teval.EvalUnknown, KeyError, AttributeError, TypeError, AnalysisError) as u:
+                del rep[nrep:]
+                chk.unit('map_history_fast_path_not_interpretable', f"{type(u).__name__}: {u}"[:200])
+                fast_ok.append(False)
             for name, problems, r in rep:
                 chk.check(not problems, 'MAP-REPLACE' if 'claim' in name or 'NAME' in name else 'MAP-ATTACH', f"history::{name}{tag}", file=DEC, line=fn2.lineno, func='_decode',
                           expected='see the history in rules_decoder.map_history', found=problems or 'ok', nontrivial=True)
     except (A.Unknown, A.RaiseSignal, teval.EvalUnknown, KeyError, AttributeError, TypeError, AnalysisError) as u:
         chk.unit('map_history_not_interpretable', f"{type(u).__name__}: {u}"[:200])
         return False
+    map_history.fast_decided = bool(fast_ok) and all(fast_ok)
     return True
 
 def map_rules(chk, program):
     decided = map_history(chk, program)
-    if decided:
-        # the history above decided MAP-REPLACE / MAP-ATTACH on the interpreted code: what follows reads particular spellings and only confirms
-        # (the hand-over of the identity through the fast-packet path is not part of that history: those readings stay in force)
-        chk = _Demote(chk, confirm={'MAP-REPLACE', 'MAP-ATTACH', 'MAP-KEY'}, skip_floors={'source_map_accesses'}, but=lambda inst: '_decode_fast_message' in inst)
+    fast_decided = decided and map_history.fast_decided
+    # the history decides MAP-REPLACE / MAP-ATTACH / MAP-KEY on the interpreted code (the fast-packet hand-over included when that path was
+    # interpretable): what follows reads particular spellings and only confirms.  Where the history was not interpretable, a spelling the
+    # readings do not recognise is no verdict either: it is reported as undecided (exit 2), never as a violation.
+    chk = _Demote(chk, confirm={'MAP-REPLACE', 'MAP-ATTACH', 'MAP-KEY'}, skip_floors={'source_map_accesses'} if decided else (),
+                  undecided=(lambda inst: (not decided) or ('_decode_fast_message' in inst and not fast_decided)))
     return _map_rules(chk, program)
 
 class _Demote:
     """rules in `confirm` may only confirm (what they do not recognise is no alarm: a semantic decision was taken elsewhere); all other rules pass through"""
-    def __init__(self, chk, confirm, skip_floors=(), but=None):
+    def __init__(self, chk, confirm, skip_floors=(), but=None, undecided=None):
         self.chk = chk; self._confirm = confirm; self.skip_floors = set(skip_floors); self.but = but or (lambda inst: False)
+        self.undecided = undecided or (lambda inst: False)
         self.history_decided = True
         self.confirm = self
         self.obs = chk.obs
@@ -460,6 +483,9 @@ class _Demote:
         if rule in self.confirm:
             if cond:
                 self.chk.ok(rule, 'structural::' + instance, **{a: b for a, b in k.items() if a in ('file', 'line', 'func', 'expected', 'found', 'detail', 'nontrivial')})
+            elif self.undecided(instance):
+                self.chk.unknown(rule, instance, f"no interpreted history covers this and the reading of the spelling does not recognise it (expected {str(k.get('expected'))[:100]}, found {str(k.get('found'))[:100]})",
+                                 k.get('file', DEC), k.get('line', 0))
             return cond
         return self.chk.check(cond, rule, instance, **k)
     def anchor(self, cond, rule, instance, **k):
@@ -474,9 +500,11 @@ class _Demote:
         self._inst = instance
         if rule not in self.confirm:
             self.chk.violation(rule, instance, **k)
+        elif self.undecided(instance):
+            self.chk.unknown(rule, instance, f"no interpreted history covers this and the reading of the spelling does not recognise it (found {str(k.get('found'))[:100]})", k.get('file', DEC), k.get('line', 0))
     def unknown(self, rule, instance, *a, **k):
         self._inst = instance
-        if rule not in self.confirm:
+        if rule not in self.confirm or self.undecided(instance):
             self.chk.unknown(rule, instance, *a, **k)
     def unit(self, *a, **k): return self.chk.unit(*a, **k)
     def __contains__(self, rule):
@@ -664,7 +692,10 @@ def mfr_rules(chk, program, consts, stages):
         at = F.interp_ctor(program, mfr_excl=['GarMin', 'AIRMAR'], mfr_incl=[])
         at2 = F.interp_ctor(program, mfr_excl=[], mfr_incl=['GarMin'])
         for attr, got, want in (('exclude_manufacturer_code', at.get('exclude_manufacturer_code'), ['airmar', 'garmin']), ('include_manufacturer_code', at2.get('include_manufacturer_code'), ['garmin'])):
-            chk.check(got is not None and sorted(got) == want, 'MFR-NORM', f"__init__::{attr}", file=DEC, line=init.lineno, func='__init__', expected=f"the given codes lower-cased: {want}", found=got)
+            if got is None:
+                chk.unknown('MFR-NORM', f"__init__::{attr}", f"the constructor leaves no attribute {attr}: where the manufacturer codes are kept was not followed", DEC, init.lineno)
+                continue
+            chk.check(sorted(got) == want, 'MFR-NORM', f"__init__::{attr}", file=DEC, line=init.lineno, func='__init__', expected=f"the given codes lower-cased: {want}", found=got)
     except (A.Unknown, A.RaiseSignal) as u:
         chk.unknown('MFR-NORM', '__init__', f"constructor not interpretable: {u}", DEC, init.lineno)
     n = 0
